@@ -361,11 +361,12 @@ func BuildHist(h *HistSys, hist []Op) (*world.World, Obs, error) {
 		return nil, Obs{}, err
 	}
 	h.Init(w)
+	w.Aux = nil
 	for _, op := range h.Prefix {
-		h.Apply(w, op)
+		// the observations of the prefix belong to the log: reference models need what was handed out there
+		w.Aux = append(w.Aux, h.Apply(w, op))
 	}
 	var last Obs
-	w.Aux = nil
 	for _, op := range hist {
 		last = h.Apply(w, op)
 		w.Aux = append(w.Aux, last)
